@@ -96,6 +96,8 @@ def fi_ops(shape):
         ops += [["algos", R, {"weights": {"f": 0.5, "c": 0.5}}, "Rebalance"]]
         ops += [["algos", R, {"weights": {"f": 0.5}, "notional_value": 16.0}, "Rebalance"]]
         ops += [["stransact", R, 8.0]]
+        # two ordinary operations back to back, nothing read in between
+        ops += [["seq", [["transact", R, "c", 8.0], ["rebbase", R, "c", 0.5, 32.0]]], ["seq", [["transact", R, "f", -4.0], ["rebbase", R, "f", 0.25, 16.0]]]]
     elif shape == "F2":
         for c, q in (("f", 8.0), ("f", -4.0), ("c", 8.0), ("c", -12.0)):
             ops += [["transact", ["sf"], c, q]]
